@@ -30,6 +30,9 @@ type C16 struct {
 	seenC2P map[string]int
 	received map[string]map[string]math.Int // consumer -> provider denom -> total amount received in transfers
 	payoutIneligible, payout bool
+	// since: consumer -> provider address -> height of the block after which the validator was first seen in the
+	// consumer's stored set without interruption (the oracle's own record of "has been validating since")
+	since map[string]map[string]int64
 }
 
 type consBal struct {
@@ -54,7 +57,7 @@ type provBal struct {
 }
 
 func NewC16(w *world.World) *C16 {
-	return &C16{cPre: map[string]*consBal{}, seenC2P: map[string]int{}, received: map[string]map[string]math.Int{}}
+	return &C16{cPre: map[string]*consBal{}, seenC2P: map[string]int{}, received: map[string]map[string]math.Int{}, since: map[string]map[string]int64{}}
 }
 
 func moduleAddr(name string) sdk.AccAddress { return authtypes.NewModuleAddress(name) }
@@ -181,6 +184,7 @@ func (m *C16) After(w *world.World, a *world.Action, r *world.StepResult) *Viola
 	ctx := w.P.Ctx()
 	k := w.P.PApp.ProviderKeeper
 	post := m.takeProvBal(w)
+	defer m.track(post, r.Block.Height)
 
 	// amounts received in this block from consumers' reward transfers (credited per the memo's consumer id)
 	recvNow := map[string]sdk.Coins{}
@@ -342,7 +346,11 @@ func (m *C16) After(w *world.World, a *world.Action, r *world.StepResult) *Viola
 		eligible := map[string]int64{}
 		names := w.NameByConsAddr()
 		for _, cv := range pre.sets[id] {
-			if r.Block.Height-cv.JoinHeight >= epochs*bpe {
+			joined := cv.JoinHeight
+			if s, ok := m.since[id][cv.ProvAddr]; ok {
+				joined = s
+			}
+			if r.Block.Height-joined >= epochs*bpe {
 				eligible[names[cv.ProvAddr]] = cv.Power
 			} else {
 				m.payoutIneligible = true
@@ -397,6 +405,27 @@ func (m *C16) After(w *world.World, a *world.Action, r *world.StepResult) *Viola
 		}
 	}
 	return nil
+}
+
+// track updates the oracle's membership record from the sets stored after a provider block.
+func (m *C16) track(post *provBal, height int64) {
+	for id, set := range post.sets {
+		if m.since[id] == nil {
+			m.since[id] = map[string]int64{}
+		}
+		cur := map[string]bool{}
+		for _, cv := range set {
+			cur[cv.ProvAddr] = true
+			if _, ok := m.since[id][cv.ProvAddr]; !ok {
+				m.since[id][cv.ProvAddr] = height
+			}
+		}
+		for a := range m.since[id] {
+			if !cur[a] {
+				delete(m.since[id], a)
+			}
+		}
+	}
 }
 
 func sortedKeys(m map[string]int64) []string {
